@@ -449,11 +449,27 @@ class VC:
         c.assume(fs.seq0.t == T.app(fs.seen, fs.rest))
 
     def loop_assume(self, n, loc):
+        c = ctx()
+        self.spec.loops_entered.add(n)
+        # reachability probe behind the assumed invariant (vacuity guard, DESIGN 3.9).  The guard must not blame
+        # the invariant for a path that was infeasible before the invariant was assumed: branch probes answer
+        # `unknown` (= explore) when they run out of budget, so such paths do arrive here.
+        before = c.probe()
+        if before == z3.unsat:
+            raise PathEnd()         # infeasible path: nothing is reachable behind it
+        npc = len(c.pc)
         for tag, g in self._eval_inv(n, loc):
-            ctx().assume(as_bool_term(g))
-        # reachability probe behind the assumed invariant (vacuity guard, DESIGN 3.9)
-        if not ctx().feasible(z3.BoolVal(True)):
-            raise CheckerError('%s: invariant of loop #%d is unsatisfiable in context' % (ctx().label, n))
+            c.assume(as_bool_term(g))
+        if c.probe() == z3.unsat:
+            if before != z3.sat:
+                before = c.pc_satisfiable(npc)
+            if before == z3.sat:
+                raise CheckerError('%s: invariant of loop #%d is unsatisfiable in context' % (c.label, n))
+            # the path condition before the invariant is unsatisfiable (or could not be shown satisfiable):
+            # pc & Inv is unsat, so every obligation behind this point would hold vacuously; end the path.
+            # A loop whose invariant is reachable on no path at all is reported after the exploration.
+            self.spec.reached.add('inv#%d/infeasible-path' % n)
+            raise PathEnd()
         self.spec.reached.add('inv#%d' % n)
 
     def for_has_next(self, fs):
